@@ -48,7 +48,7 @@ BOUND = {
     "thorough": "seeds 0..127; histories depth<=3 cold and warm; schedules: all unordered pairs of the 11 driver forms incl. self-pairs, cold and warm, <=1 preemption at the first and last occurrence of every distinct line, and at every line point for the 7 collision-prone pairs (cold); 3-thread one-preemption for 2 triples; 2 preemptions at call granularity for 4 pairs (location-deduplicated)",
 }
 
-BOUND = {k: v + "; plus 5 further driver forms (pulldata in every bind attribute, defaulted range parameters, two untagged languages in either column order, both id columns) in the seed sweep, in depth-3 histories among themselves and depth-2 with every driver, in regeneration; re-use: the same workbook object converted 3 times, and alternated with another form" for k, v in BOUND.items()}
+BOUND = {k: v + "; plus 9 further driver forms (pulldata in every bind attribute, defaulted range parameters, two untagged languages in either column order, both id columns, four refused forms whose error message lists several things) in the seed sweep, in depth-3 histories among themselves and depth-2 with every driver, in regeneration; re-use: the same workbook object converted 3 times, and alternated with another form" for k, v in BOUND.items()}
 
 # ------------------------------------------------------------------ driver alphabet -------
 CH = [{"list_name": "c", "name": "x", "label": "X"}, {"list_name": "c", "name": "y", "label": "Y"}]
@@ -126,6 +126,16 @@ XFORMS = {
     "dupid": {"survey": [{"type": "text", "name": "q", "label": "Q"}], "settings": [{"id_string": "x1", "form_id": "x2", "form_title": "T"}],
               "settings_header": [{"id_string": None, "form_id": None, "form_title": None}]},
 }
+# forms that are refused: the message is part of what a caller sees, and it must not depend on the hash seed or the history either
+RFORMS = {
+    "badext": {"survey": [{"type": "select_one_from_file cities.txt", "name": "s", "label": "S"}]},
+    "searchshared": {"survey": [{"type": "select_one c", "name": "s1", "label": "S", "appearance": "search('f')"}, {"type": "select_one c", "name": "s2", "label": "S", "appearance": "search('f')"},
+                                {"type": "select_one c", "name": "n1", "label": "N"}, {"type": "select_multiple c", "name": "n2", "label": "N"}, {"type": "select_one c", "name": "n3", "label": "N", "parameters": "randomize=true"}],
+                     "choices": CH},
+    "dupnames": {"survey": [{"type": "text", "name": n, "label": n} for n in ("b", "a", "c", "a", "b", "c")]},
+    "badparams": {"survey": [{"type": "text", "name": "q", "label": "Q", "parameters": "zeta=1 alpha=2 rows=3 mid=4"}]},
+}
+XFORMS.update(RFORMS)
 FORMS.update(XFORMS)
 XNAMES = list(XFORMS)
 ALL = NAMES + XNAMES
@@ -203,7 +213,10 @@ def convert_form(name):
 
     from pyxform.xls2xform import convert
 
-    r = convert(copy.deepcopy(FORMS[name]))
+    try:
+        r = convert(copy.deepcopy(FORMS[name]))
+    except Exception as e:  # noqa: BLE001 - a refused form: its message is the observation
+        return ["EXC " + type(e).__name__ + ": " + str(e), [], None]
     return [r.xform, list(r.warnings), r.itemsets]
 
 
@@ -378,6 +391,8 @@ OPS = ["xml_c", "xml_p", "json", "dom"]
 
 def gen_regen(tier):
     for n in ALL:
+        if n in RFORMS:
+            continue
         for d in range(1, 4):
             for seq in itertools.product(OPS, repeat=d):
                 if not any(o.startswith("xml") for o in seq[1:]) and d > 1:
@@ -492,8 +507,11 @@ def check_reuse(case):
         before = {n: json.dumps(o, sort_keys=True, default=str) for n, o in objs.items()}
         out = []
         for n in case["seq"]:
-            r = convert(objs[n])
-            out.append([r.xform, list(r.warnings), r.itemsets])
+            try:
+                r = convert(objs[n])
+                out.append([r.xform, list(r.warnings), r.itemsets])
+            except Exception as e:  # noqa: BLE001
+                out.append(["EXC " + type(e).__name__ + ": " + str(e), [], None])
         changed = sorted(n for n, o in objs.items() if json.dumps(o, sort_keys=True, default=str) != before[n])
         return out, changed
 
